@@ -65,6 +65,8 @@ def build_corpus(tier, rng):
             for d in rng.choice(DOCS):
                 v.metas.insert(rng.randint(0, len(v.metas)), doc(d))
         items.append(("random", it))
+    items.append(("case-spellings", Item("E", [Variant("A", "unit", [], [ser("mb"), tos("MB"), aci(False)]), Variant("B", "tuple", [Field("u8")], [ser("kb"), ser("Kb"), ser("KB"), aci(True, explicit=False)]),
+                                               Variant("C", "unit", [], [DISABLED, ser("x"), ser("X"), det("never"), msg("never")])])))
     for fam, it in items:
         k = c.add_def(it, family=fam, derives=["EnumMessage"])
         for j, (i, _, tag) in enumerate(T.RR.sample_values(it)):
